@@ -1264,7 +1264,11 @@ impl DbInner {
 				let max_logs = if self.options.sync_data { MAX_LOG_FILES } else { KEEP_LOGS };
 				let dirty_logs = self.log.num_dirty_logs();
 				if !validation_mode {
-					while self.log.num_dirty_logs() > max_logs {
+					// Once shutdown has started the cleanup worker may already be gone; the
+					// remaining logs are reclaimed by `kill_logs`.
+					while self.log.num_dirty_logs() > max_logs &&
+						!self.shutdown.load(Ordering::SeqCst)
+					{
 						log::debug!(target: "parity-db", "Waiting for log cleanup. Queued: {}", dirty_logs);
 						self.cleanup_queue_wait.wait();
 					}
@@ -1331,6 +1335,7 @@ impl DbInner {
 		self.log_worker_wait.signal();
 		self.commit_worker_wait.signal();
 		self.cleanup_worker_wait.signal();
+		self.cleanup_queue_wait.signal();
 	}
 
 	fn kill_logs(&self, db: &Arc<DbInner>) -> Result<()> {
